@@ -73,6 +73,8 @@ def make_material(m):
         return Material(m[1], m[2]) if len(m) > 2 else Material(m[1])
     if kind == 'abbe':
         return AbbeMaterial(m[1], m[2])
+    if kind == 'catr':        # catalogue glass searched with a required wavelength range
+        return Material(m[1], min_wavelength=m[2], max_wavelength=m[3])
     raise ValueError(m)
 
 
